@@ -234,15 +234,11 @@ Proof.
   rewrite IH. reflexivity.
 Qed.
 
-Lemma enf_accepted_vs_of M supplied crs :
-  forallb (enf_accepted (oracles_of M)) (vs_of supplied crs)
-  = forallb (enforce_accepts M) (flat_map (enforce_events supplied) crs).
+Lemma accepted_seq_monitor M evs : forall pre,
+  accepted_seq (oracles_of M) pre evs = enforce_seq_ok M pre evs.
 Proof.
-  induction crs as [|[c r] rest IH]; [reflexivity|]. unfold vs_of in *. cbn [map flat_map forallb fst snd].
-  rewrite forallb_app, IH. f_equal. unfold enforce_events, enf_accepted.
-  change (counted r supplied) with (auth_of r supplied).
-  induction (r_policies r) as [|p ps IHp]; [reflexivity|].
-  cbn [map forallb]. rewrite IHp. reflexivity.
+  induction evs as [|e rest IH]; intros pre; [reflexivity|]. cbn [accepted_seq enforce_seq_ok].
+  destruct e; try reflexivity. rewrite IH. reflexivity.
 Qed.
 
 Lemma all_some_spec {A} (l : list (option A)) :
@@ -343,8 +339,8 @@ Proof.
     cbn [map] in Ha. inversion Ha as [[Hd Ha']]. cbn [combine vs_of map fst snd]. constructor.
     - apply deciding_validated; [exact W|exact Hd|]. apply (Hsat (c, r)). left. reflexivity.
     - apply IH; [exact Ha'|cbn in Hlen; lia|]. intros cr Hcr. apply Hsat. right. exact Hcr. }
-  rewrite <- enf_accepted_vs_of, <- enf_events_vs_of.
-  destruct (forallb (enf_accepted (oracles_of M)) (vs_of supplied (combine cs rs))) eqn:Ee.
+  rewrite <- accepted_seq_monitor, <- enf_events_vs_of.
+  destruct (accepted_seq (oracles_of M) [] (flat_map enf_events (vs_of supplied (combine cs rs)))) eqn:Ee.
   - destruct (do_check_auth_complete _ a now auths sigs cs _ Hsig Hval Ee) as [log Hlog].
     exists log. split; [exact Hlog|].
     destruct (do_check_auth_ok _ _ _ _ _ _ _ Hlog) as [_ [vs' [Hf' [_ Hl]]]].
@@ -477,6 +473,21 @@ Proof.
     pose proof (agrees_expectation (s_acct st) (s_modes st) (s_now st) auths sigs cs W) as Ha.
     destruct (do_check_auth (oracles_of (s_modes st)) (s_acct st) (s_now st) auths sigs cs); cbn [fst snd];
       repeat split; auto.
+  - (* SetThreshold *)
+    destruct (s_deployed st) eqn:D; cbn [negb fst snd]; [|repeat split; auto].
+    set (cx := if via_execute then CCall self fn_execute else CCall thr_callee fn_set_threshold).
+    set (M := if via_execute then s_modes st else mark_busy (s_modes st)).
+    assert (EO : (if via_execute then oracles_of (s_modes st) else oracles_of (mark_busy (s_modes st))) = oracles_of M)
+      by (unfold M; destruct via_execute; reflexivity).
+    rewrite EO.
+    pose proof (expectation_correct (s_acct st) M (s_now st) auths sigs [cx] W) as He.
+    destruct (do_check_auth (oracles_of M) (s_acct st) (s_now st) auths sigs [cx]) as [l1|] eqn:E1;
+      [|cbn [fst snd agrees_sound]; repeat split; auto].
+    destruct ((1 <=? t) && (t <=? nsig)); cbn [fst snd]; [|cbn [agrees_sound]; repeat split; auto].
+    split; [|cbn; repeat split; auto].
+    cbn [agrees_sound]. destruct (expectation (a_rules (s_acct st)) M (s_now st) auths sigs [cx]) as [| |enf];
+      cbn [agrees]; [discriminate|reflexivity|].
+    destruct He as [l [He Hl]]. inversion He; subst l. rewrite <- Hl. apply same_enforce_filter_refl.
 Qed.
 
 Lemma model_items_cons c types st cl r :
